@@ -1466,7 +1466,7 @@ def gen_case(spec):
     enabled_exc = g.sample(EXC_KINDS, g.randint(1, len(EXC_KINDS)))
     def rewrap_after(client, rec_id):
         # a caller who edited a record usually wraps it again before the next call
-        if g.random() < 0.9:
+        if g.random() < 0.7:
             related = {rec_id} | set(r_["id"] for r_ in cat["pool"] if (r_.get("derive") or {}).get("from") == rec_id)
             for w_ in cat["wrappers"]:
                 if w_["rec"] in related:
@@ -1528,9 +1528,14 @@ def gen_case(spec):
             cands = [(rd, fd) for rd in cat["pool"] if not rd.get("source") and not rd.get("derive") and rd["id"] not in has_twin and rd.get("references") for fd in rd["features"] if not fd.get("citation_raw")]
             if cands:
                 rd, fd = g.choice(cands)
+                uncited = [c_ for c_ in cands if not c_[1].get("citation")]
+                adding = bool(uncited) and g.random() < 0.5
+                if adding:
+                    rd, fd = g.choice(uncited)   # a feature that cited nothing starts citing
                 nref = len(rd["references"])
-                add(client, {"op": "edit_citation", "rec": rd["id"], "uid": fd["uid"], "citation": sorted(g.sample(range(1, nref + 1), g.randint(0, min(2, nref)))), "in_place": g.random() < 0.5})
-                rewrap_after(client, rd["id"])
+                add(client, {"op": "edit_citation", "rec": rd["id"], "uid": fd["uid"], "citation": sorted(g.sample(range(1, nref + 1), g.randint(1 if adding else 0, min(2, nref)))), "in_place": g.random() < 0.5})
+                if g.random() < 0.6:
+                    rewrap_after(client, rd["id"])
         elif x < 0.94:
             add(client, {"op": "probe", "h": g.choice(cat["wrappers"])["h"], "method": g.choice(["target_sequence", "target_sequence", "overhang_start", "overhang_end", "is_valid"])})
         elif x < 0.97:
